@@ -17,9 +17,11 @@ CHECKS = {
         "assumptions": [
             "HTML5 tokenizer = golang.org/x/net/html Tokenizer; its CR/CRLF->LF and RCDATA NUL->U+FFFD normalisations are applied to the expected value",
             "for style and href/action sinks the expected value is the sanitiser's own return value (their policy is C04/C05)",
-            "sinks are the fixtures in harness/fx/sinks.templ (41 placements of the quantifier's sink kinds) generated with /repo's generator at check time",
+            "sinks are the fixtures in harness/fx/sinks.templ (placements of the quantifier's sink kinds) generated with /repo's generator at check time",
+            "generated surroundings (c01.programs) compare markup tokens (tags, attribute names and values) with tgen's reference interpreter; text runs in generated surroundings are compared by c02.renders for valid UTF-8 only",
         ],
-        **tiers(20000, 200000),
+        "quick": {"timeout": 900, "runs": [{"run": "^TestProp(Sinks|AllScalars)$", "rapid_checks": 20000}, {"run": "^TestPropPrograms$", "rapid_checks": 3}]},
+        "thorough": {"timeout": 3000, "shards": 8, "runs": [{"run": "^TestProp(Sinks|AllScalars)$", "rapid_checks": 200000}, {"run": "^TestPropPrograms$", "rapid_checks": 12}]},
     },
     "C02": {
         "pkg": "./checks/c02",
